@@ -180,10 +180,12 @@ func (c09) Exec(plan any, c *Ctx) *Violation {
 	}
 	bad := plantAll(p.B, p.Planted)
 	pendingTrueOnPass := false
+	var restored *Cfg
 	for i, op := range p.Ops {
 		op %= nC09Ops
 		step := fmt.Sprintf("#%d %s", i, c09OpNames[op])
 		var err error
+		restored = nil
 		pan := catch(func() {
 			switch op {
 			case opDebugOn, opDebugOff:
@@ -200,7 +202,11 @@ func (c09) Exec(plan any, c *Ctx) *Violation {
 				cc := bad.Config()
 				err = m.Reconfigure(&cc)
 			case opRestore:
-				err = m.Reconfigure(m.Config())
+				snap := m.Config()
+				err = m.Reconfigure(snap)
+				if err == nil && snap != nil {
+					restored = fromConfig(snap) // what is installed now is what Config() returned, whatever that is (C06 judges it)
+				}
 			case opRequests:
 				for _, q := range []Req{{Method: "GET"}, passProbe, preflight("https://probe.test", "GET", []string{"x-foo"}, true), {Method: "GET", H: []HV{{hOrigin, []string{"https://probe.test"}}}}} {
 					srv.do(q)
@@ -246,13 +252,19 @@ func (c09) Exec(plan any, c *Ctx) *Violation {
 				cur = p.B
 			}
 		case opRestore:
-			// documented no-op on a configured middleware; on a passthrough one Config() is nil, i.e. Reconfigure(nil)
+			// on a passthrough middleware Config() is nil, i.e. Reconfigure(nil). On a
+			// configured one it is a Reconfigure with whatever Config() returned: if
+			// that is accepted, debug mode is kept and the installed configuration is
+			// that value; if it is rejected (a C06 defect), nothing may change.
 			c.hit("op_restore")
-			if err != nil {
-				return &Violation{Class: "reconfigure-result", Key: p.key(), Detail: step + " returned " + err.Error()}
-			}
-			if !configured {
+			switch {
+			case !configured:
 				debug = false
+			case err == nil && restored != nil:
+				if !hasObservableDebug(*restored) {
+					return nil // cannot observe debug under what Config() returned; run abandoned
+				}
+				cur = *restored
 			}
 		case opRequests:
 			c.hit("op_requests")
